@@ -5,6 +5,7 @@ options promise.  Used by the statements of C03.
 import DafRel.Model.Apply
 import DafRel.Model.Sem
 import DafRel.Spec.Preds
+import DafRel.Spec.Select
 
 namespace DafRel
 
@@ -16,6 +17,14 @@ def UOp.isProj : UOp → Bool
 def Rel.spineNoDedup : Rel → Prop
   | .unary op t _ => op.isDedup = false ∧ Rel.spineNoDedup t
   | .transfer _ _ t => Rel.spineNoDedup t
+  | _ => True
+
+/-- Every transfer on the path back-tracking takes whose target already lives in the preferred engine
+has a target covered by the SQL tree-building theorems, when that engine is a SQL engine (nothing is
+required when the preferred engine is an iteration engine). -/
+def Rel.prefTargetsGood (σ : Leaves) (pref : Engine) : Rel → Prop
+  | .unary _ t _ => Rel.prefTargetsGood σ pref t
+  | .transfer _ _ t => (t.engine = pref → pref.kind = .sql → Good σ t) ∧ Rel.prefTargetsGood σ pref t
   | _ => True
 
 /-- What `backtrack_unary(op, tree, preferred)` promises about the relation `tree'` it returns
